@@ -184,6 +184,39 @@ def limited(res):
                         res.violation('h15:limited:' + ob, 'PIVOT BY reshapes the rows the un-pivoted statement (with its ORDER BY and LIMIT) returns', {'query': q}, got[:3], want[:3])
 
 
+def typed_keys(res):
+    """key columns of every datatype (decimal, date-like text, int) with NULLs: the NULL block comes first whatever the type of the
+    other key values; reference: the reshaping of the un-pivoted result"""
+    rows = [('a', 1, 1, None), ('a', 1, 2, D('1.5')), ('b', 2, 3, None), ('b', 1, 4, D('-2')), ('a', 2, 5, D('1.5')), (None, 2, 6, D('0')), ('c', None, 7, D('10'))]
+    conn = make_conn(d=(COLS, rows))
+    nkey = lambda v: (v is not None, v if v is not None else 0)
+    for first, second in (('r', 'y'), ('k', 'y'), ('y', 'r'), ('y', 'k'), ('r', 'k')):
+        head = f'SELECT {first}, {second}, sum(x) AS s, count(*) AS n FROM #d GROUP BY {first}, {second}'
+        q = head + f' PIVOT BY {first}, {second}'
+        res.case(('typed-keys', q))
+        try:
+            base = conn.execute(head).fetchall()
+            cur = conn.execute(q)
+            names, got = [d.name for d in cur.description], [tuple(r) for r in cur.fetchall()]
+        except Exception as e:
+            res.violation('h15:typed-keys-crash:' + type(e).__name__, 'pivot query over typed key columns with NULLs executes', {'query': q}, f'{type(e).__name__}: {e}', 'rows')
+            continue
+        nn = [v for v in {r[1] for r in base} if v is not None]
+        seconds = ([None] if any(r[1] is None for r in base) else []) + sorted(nn)
+        fn = [v for v in {r[0] for r in base} if v is not None]
+        firsts = ([None] if any(r[0] is None for r in base) else []) + sorted(fn)
+        want_names = [f'{first}/{second}'] + [f'{sv}/{a}' for sv in seconds for a in ('s', 'n')]
+        want = []
+        for f in firsts:
+            row = [f]
+            for sv in seconds:
+                hit = [r for r in base if r[0] == f and r[1] == sv]
+                row += list(hit[0][2:]) if hit else [None, None]
+            want.append(tuple(row))
+        if names != want_names or got != want:
+            res.violation('h15:typed-keys:' + f'{first},{second}', 'NULL key values come first (rows and column blocks) whatever the datatype of the key column', {'query': q}, (names, got[:2]), (want_names, want[:2]))
+
+
 def run(tier, seed):
     res = Result('aggregate queries grouped by exactly the two pivot columns on full / sparse / duplicate-key / single-row / empty tables; both key orders; '
                  '1-3 remaining aggregate columns; pivot columns in any target positions; by name and by position; distinct = distinct query')
@@ -194,6 +227,7 @@ def run(tier, seed):
             res.violation('h15:' + bad[0][:50] + ':' + bad[1]['query'][:70], bad[0], bad[1], bad[2], bad[3])
     invalid_refs(res)
     limited(res)
+    typed_keys(res)
     return res.asdict()
 
 
